@@ -356,6 +356,73 @@ def run(chk, R, tier, seed):
         fresh_cases.append(Case(steps, judge, isolate=True))
     chk.require("mixing after a converter block was left|exc")
 
+    # ---- the same statements for a subclass of Money (its own currencies;
+    # in a fresh interpreter, so that no code is taken yet)
+    for j in range(6 if tier == "quick" else 40):
+        c1, c2 = rng.sample(codes, 2)
+        (n1, m1), (n2, m2) = table[c1], table[c2]
+        x = F(rng.randint(1, 10 ** 9), 10 ** 7) + F(5, 10 ** (m1 + 1))
+        CASH = V("Cash")
+        steps = [{"cls": {"name": "Cash", "base": MONEY, "kw": {}},
+                  "id": "Cash", "k": "cls"},
+                 {"id": "r1", "k": "r1", "e": M(CASH, "register_currency",
+                                               ["s", c1])},
+                 {"id": "r2", "k": "r2", "e": M(CASH, "register_currency",
+                                               ["s", c1])},
+                 {"id": "o", "k": "o", "e": M(CASH, "register_currency",
+                                             ["s", c2])},
+                 {"k": "same", "e": ["is", V("r1"), V("r2")]},
+                 {"k": "name", "e": ["a", V("r1"), "name"]},
+                 {"k": "sf", "e": ["a", V("r1"), "smallest_fraction"]},
+                 {"k": "m", "e": ["c", CASH, [num(x), V("r1")]]},
+                 {"k": "add", "e": OP("+", ["c", CASH, [["i", 5], V("r1")]],
+                                      ["c", CASH, [["i", 5], V("o")]])},
+                 {"k": "eq", "e": OP("==", ["c", CASH, [["i", 5], V("r1")]],
+                                     ["c", CASH, [["i", 5], V("o")]])},
+                 {"k": "bad", "e": M(CASH, "register_currency",
+                                     ["s", "ZZZ"])}]
+
+        def judge(obs, rec, case, c1=c1, n1=n1, m1=m1, x=x, steps=steps):
+            if obs is None or "r1" not in obs:
+                chk.inconclusive_because("Money subclass case not observed")
+                return
+            if obs.get("cls", {}).get("k") == "E":
+                chk.count("subclass of Money not declarable")
+                return
+            chk.case(("money subclass", c1))
+            chk.count("entries registered in a subclass of Money")
+            bad = []
+            r1 = obs["r1"]
+            if r1.get("k") != "U" or r1.get("sym") != c1 or \
+                    r1.get("t") != "Cash" or r1.get("ucls") != "Currency":
+                bad.append("registration returned %s" % brief(r1))
+            if obs.get("same", {}).get("v") is not True:
+                bad.append("second registration returned another object")
+            if obs.get("name", {}).get("v") != n1:
+                bad.append("name %r, table says %r" %
+                           (obs.get("name", {}).get("v"), n1))
+            sf = obs.get("sf", {})
+            if sf.get("k") != "N" or val(sf) != F(1, 10 ** m1):
+                bad.append("smallest fraction %s, expected 10^-%d" %
+                           (brief(sf), m1))
+            m = obs.get("m", {})
+            want = RM.round_to(x, F(1, 10 ** m1), RM.DEFAULT_MODE)
+            if m.get("k") != "Q" or m["t"] != "Cash" or val(m) != want:
+                bad.append("Cash(%s, %s) = %s, expected %s" %
+                           (x, c1, brief(m), want))
+            if not is_exc(obs.get("add"), "UnitConversionError"):
+                bad.append("two currencies added: %s" % brief(obs.get("add")))
+            if obs.get("eq", {}).get("v") is not False:
+                bad.append("two currencies equal: %s" % brief(obs.get("eq")))
+            if not is_exc(obs.get("bad"), "ValueError"):
+                bad.append("unknown code accepted: %s" %
+                           brief(obs.get("bad")))
+            if bad:
+                chk.violation("Cash(Money), %s: %s" % (c1, "; ".join(bad)),
+                              dict(obs=obs, steps=steps), "iso-entry")
+        fresh_cases.append(Case(steps, judge, isolate=True))
+    chk.require("entries registered in a subclass of Money")
+
     # ---- user-declared currencies
     fracs = [F(1, 20), F(1, 4), F(1, 2), F(1, 1000), F(1, 8), F(1, 5),
              F(1, 100), F(1, 10 ** 6)]
